@@ -62,6 +62,7 @@ def oracle(s, ilines):
             if kd in ("float", "double"): want = ("bits", int(t[6]), 32 if kd == "float" else 64)
             elif kd == "bool":
                 w = (bytes.fromhex(t[5][1:])).lower()
+                if w not in (b"1", b"0", b"yes", b"no", b"true", b"false"): continue      # a refused call: the stored value stays
                 want = ("b", 1 if w in (b"1", b"yes", b"true") else 0)
             else: want = ("z", int(t[6]))
         elif t[0] == "get" and want:
@@ -89,6 +90,9 @@ def gen(rng, tier):
                 k = b"k%d" % j
                 g = rng.choice([None, b"sec"])
                 cmds.append(mk(kd, g, k, v)); obs.append(False)
+                if rng.random() < 0.25:
+                    # a call that is refused must leave the stored value alone
+                    cmds.append("set 0 bool %s %s %s 0" % (enc(g), enc(k), enc(rng.choice([b"maybe", b"on", b"2", b"01", b" true", b"truee"])))); obs.append(True)
                 cmds.append("get 0 %s %s %s -" % (kd, enc(g), enc(k))); obs.append(True)
             cmds.append("reread 1 0"); obs.append(False)
             # the same getters on the object that was written and read back
@@ -97,7 +101,7 @@ def gen(rng, tier):
                     pass
             k2 = []
             for c in cmds:
-                if c.startswith("set 0 "): k2.append(c)
+                if c.startswith("set 0 ") and not (c.startswith("set 0 bool") and c.split()[5] in [enc(x) for x in (b"maybe", b"on", b"2", b"01", b" true", b"truee")]): k2.append(c)
                 if c.startswith("get 0 "): k2.append("get 1 " + c[6:])
             # interleave so that the oracle sees the matching set before each get
             cmds2, obs2 = list(cmds), list(obs)
